@@ -34,7 +34,7 @@ BUDGETS = {'C17': (45, 900, 100)}
 LEVELS = {'C17': 'exploration'}
 PROBES = {'C17': ['encoded_crlf_in_path', 'encoded_crlf_in_login', 'encoded_nul', 'multiline_reply', 'inner_line_with_digits',
                   'reply_split_across_reads', 'ok226_before_data_eof', 'data_eof_before_226', 'data_reset', 'no_completion_reply',
-                  'negative_completion', 'error_reply_step', 'listing', 'control_reuse', 'download_ok', 'metamorphic', 'big_file']}
+                  'negative_completion', 'error_reply_step', 'listing', 'control_reuse', 'download_ok', 'metamorphic', 'big_file', 'slow_transfer', 'data_stall']}
 INFO = {'C17': {
     'rule': 'workload = 1..3 FTP fetches (file or listing) on one control connection: URL path/user/password with drawn bytes '
             '(any byte value percent-encoded, incl. CR LF NUL), reply texts and multi-line shapes per step, error replies, '
@@ -91,8 +91,17 @@ def gen_reply(tape, code, text, allow_multi=True):
     inner = []
     digits = False
     for _ in range(tape.between(1, 3, 'reply.inner.n')):
-        k = tape.draw(9, 'reply.inner.k')
-        if k == 0:
+        k = tape.draw(12, 'reply.inner.k')
+        if k == 9:
+            inner.append(c + b'3 bytes sent')             # the reply's own code followed by another digit: a text line
+            digits = True
+        elif k == 10:
+            inner.append(c + tape.choice((b':used', b'.5 MB free', b'users online', b'_'), 'reply.inner.glue'))
+            digits = True
+        elif k == 11:
+            inner.append(c + b'0')
+            digits = True
+        elif k == 0:
             inner.append(c + b'-' + b'more')
         elif k == 1:
             inner.append(b' indented text')
@@ -293,6 +302,31 @@ class _Control:
                 dc.finish()
                 self.reply(v + '.end', 226, 'transfer complete')
             info.update(sent_all=True, eof=True, ok226=True)
+        elif mode == 'slow':
+            # a healthy but slow transfer: no single gap reaches the read timeout, the whole transfer exceeds it (the control
+            # connection sits idle meanwhile)
+            gap = 0.4 * h.timeout
+            n = h.stape.between(3, 5, 'slow.pieces')
+            step = max(1, len(content) // n)
+            pieces = [content[i:i + step] for i in range(0, len(content), step)] or [b'']
+            for pc in pieces:
+                dc.wait(gap)
+                if pc:
+                    dc.send(pc)
+            dc.finish()
+            self.conn.wait(gap * len(pieces) + 0.1)
+            self.reply(v + '.end', 226, 'transfer complete')
+            info.update(sent_all=True, eof=True, ok226=True)
+            h.r.probes['slow_transfer'] += 1
+        elif mode == 'ok226_then_stall':
+            # completion claimed early, then the data connection stalls for ever (never closed by the server)
+            cut = h.stape.draw(len(content) + 1, 'transfer.cut')
+            self.reply(v + '.end', 226, 'transfer complete')
+            if cut:
+                dc.send(content[:cut])
+            info['ok226'] = True
+            h.r.probes['data_stall'] += 1
+            h.r.faults['ftp_data_stall_after_226'] += 1
         elif mode == 'data_reset':
             cut = h.stape.draw(len(content) + 1, 'transfer.cut')
             if cut:
@@ -350,14 +384,18 @@ def gen_script(tape, faults_on):
     plan['shape_seed'] = tape.draw(1 << 20, 'shape_seed')
     if faults_on:
         for _ in range(tape.between(1, 2, 'nfaults')):
-            k = tape.draw(6, 'fault.kind')
-            if k == 0:
+            k = tape.draw(7, 'fault.kind')
+            if k == 6:
+                plan[('transfer', tape.draw(n, 'fault.transfer'))] = 'ok226_then_stall'
+            elif k == 0:
                 verb = tape.choice(('USER', 'PASS', 'TYPE', 'PASV', 'SIZE', 'RETR', 'LIST'), 'fault.verb')
                 code = tape.choice((421, 500, 530, 550, 451, 425), 'fault.code')
                 plan[('error', verb, tape.draw(2, 'fault.occ'))] = code
             else:
                 mode = ('data_reset', 'negative_completion', 'no_completion', 'ok226_then_reset', 'data_reset')[k - 1]
                 plan[('transfer', tape.draw(n, 'fault.transfer'))] = mode
+    elif tape.chance(1, 5, 'slow'):
+        plan[('transfer', tape.draw(n, 'slow.transfer'))] = 'slow'
     return fetches, user, pw, plan
 
 
@@ -369,6 +407,7 @@ def execute(tape, r, fetches, user, pw, plan, files, seg_mode=None, vary_latency
     h.stape = Tape(plan.get('shape_seed', 0))      # server-side shapes: identical in every re-run of the same script
     h.files = files
     h.multi_ok = True
+    h.timeout = timeout
     h.unexpected_verbs = []
     h.transfers = []
     h.listing_mlsd = (b'type=file;size=10;modify=20180101000000; a.txt\r\ntype=dir;modify=20180101000000; sub\r\n'
@@ -496,6 +535,11 @@ def judge(r, fetches, outcomes, h, replies, sends, files, label=''):
             r.violate(P, 'hang', 'client-hang', o.get('error_msg', '') + label)
             continue
         if not o.get('ok'):
+            ts = [t for t in h.transfers if t['fetch'] == o['i']]
+            if ts and ts[-1]['mode'] == 'slow' and all(t['mode'] in ('slow', 'normal') for t in h.transfers) and not any(k[0] in ('error', 'reply') for k in h.plan if isinstance(k, tuple)):
+                # nothing was wrong with this transfer: every read got data in time, the server closed and confirmed
+                r.violate(P, 'good-transfer-failed', 'slow', 'fetch %d: a slow but complete transfer (gaps below the timeout) was reported as failed: %s %s%s'
+                          % (o['i'], o.get('error'), (o.get('error_msg') or '')[:200], label))
             continue
         ts = [t for t in h.transfers if t['fetch'] == o['i']]
         if not ts:
